@@ -56,6 +56,17 @@ def weight_of(n):
         if v.get('kind') == 'local':
             d = ex.unique_def(s.fn, s.decl_id)
             dd = d.strip_all() if d is not None else None
+            if dd is not None and dd.k not in ('BinaryOperator', 'CXXOperatorCallExpr') and v.get('constq'):
+                # const W w = weight(X);
+                _depth[0] += 1
+                try:
+                    r_ = weight_of(dd)
+                finally:
+                    _depth[0] -= 1
+                if r_ is not None:
+                    return r_
+            if dd is not None and dd.k == 'CallExpr' and v.get('constq'):
+                pass
             if dd is not None and dd.k in ('BinaryOperator', 'CXXOperatorCallExpr') and dd.op == '+':
                 ops = dd.c if dd.k == 'BinaryOperator' else dd.c[1:]
                 _depth[0] += 1
@@ -175,6 +186,16 @@ def min_update_contract(fn, assign, acc, x):
         if 'fx' in envo and not envo['fx']:
             return 'violation', 'the accumulator can be overwritten by a candidate whose found flag is false'
         if 'fx' not in atoms:
+            # an unrecognised condition that looks at the candidate may be the validity test in another spelling
+            for a_ in atoms:
+                if isinstance(a_, tuple) and a_ and a_[0] == 'opaque':
+                    on = fn.nodes.get(a_[1])
+                    hides = on is not None and ex.membership(on) is None and any(
+                        (y.k in ('CallExpr', 'CXXMemberCallExpr') and y.callee and y.callee.get('in_repo')) or
+                        (y.k == 'CXXOperatorCallExpr' and y.op == '()' and y.callee and (y.callee.get('lambda_op') or y.callee.get('in_repo')))
+                        for y in on.walk())
+                    if hides and (ex.refs_var(on, x) or refs_through_callee(on, x)):
+                        return 'undecided', 'condition `%s` looks at the candidate in an unrecognised way (it may be the found test)' % on.text(50)
             return 'violation', 'the update is not conditioned on the candidate having been found'
         strict = {(False, 'lt'): True, (False, 'eq'): True, (False, 'gt'): True,
                   (True, 'lt'): True, (True, 'eq'): False, (True, 'gt'): False}
